@@ -432,6 +432,9 @@ type c07dCase struct {
 	Remote  int    `json:"remote"`
 	// Pid, if non-empty, is the protocol id used instead of "verif/xxx" (any non-empty valid UTF-8 string is a valid id)
 	Pid string `json:"pid,omitempty"`
+	// PreRemote, if non-zero and different from Remote: a valid stream with the same protocol id from that other
+	// remote peer (on its own link) is dispatched first, and its lookup is still alive when the main stream arrives
+	PreRemote int `json:"pre_remote,omitempty"`
 }
 
 // pidGen: arbitrary valid protocol ids - whitespace and control characters at the edges, case, separators, non-ASCII
@@ -443,11 +446,12 @@ var pidGen = rapid.OneOf(
 
 func genC07d(t *rapid.T) c07dCase {
 	return c07dCase{
-		Pid:     pidGen.Draw(t, "pid"),
-		Kind:    rapid.SampledFrom([]string{"valid", "valid", "valid", "empty-pid", "bad-utf8", "len-zero", "len-over", "truncated", "not-proto"}).Draw(t, "kind"),
-		PidLen:  rapid.SampledFrom([]int{1, 2, 5, 30, 121, 122, 123, 200, 5000}).Draw(t, "pidlen"),
-		Payload: rapid.SampledFrom([]int{0, 1, 17, 300}).Draw(t, "payload"),
-		Remote:  rapid.IntRange(1, 3).Draw(t, "remote"),
+		Pid:       pidGen.Draw(t, "pid"),
+		PreRemote: rapid.SampledFrom([]int{0, 0, 1, 2, 3}).Draw(t, "preremote"),
+		Kind:      rapid.SampledFrom([]string{"valid", "valid", "valid", "empty-pid", "bad-utf8", "len-zero", "len-over", "truncated", "not-proto"}).Draw(t, "kind"),
+		PidLen:    rapid.SampledFrom([]int{1, 2, 5, 30, 121, 122, 123, 200, 5000}).Draw(t, "pidlen"),
+		Payload:   rapid.SampledFrom([]int{0, 1, 17, 300}).Draw(t, "payload"),
+		Remote:    rapid.IntRange(1, 3).Draw(t, "remote"),
 	}
 }
 
@@ -500,6 +504,21 @@ func checkC07d(c c07dCase) (o vstat.Outcome) {
 	case "not-proto":
 		data = append([]byte{0x05, 0xff, 0xff, 0xff, 0xff, 0xff}, pay...)
 	}
+	var preWant []string
+	if c.PreRemote != 0 && c.PreRemote != c.Remote && utf8.ValidString(pid) && len(good) <= int(transport_controller.VerifStreamEstablishMaxPacketSize())+8 {
+		fl2 := fakes.NewLink("l1", 4343, n.peerID, gen.PeerID(c.PreRemote))
+		fl2.TptID = n.tpt.uuid
+		defer fl2.Close()
+		n.handler.HandleLinkEstablished(fl2)
+		pre := fakes.NewScriptStream(append(append([]byte{}, good...), []byte("pre-payload")...))
+		fl2.PushStream(pre)
+		if waitFor(5*time.Second, func() bool { _, recs := sink.snapshot(); return len(recs) == 1 && recs[0].read }) {
+			preWant = []string{fmt.Sprintf("%s|%s|%s", pid, n.peerID, gen.PeerID(c.PreRemote))}
+			o.Classes = append(o.Classes, "same-protocol-from-another-remote-first")
+		} else if dirs, _ := sink.snapshot(); len(dirs) != 0 {
+			preWant = dirs
+		}
+	}
 	ss := fakes.NewScriptStream(data)
 	if c.Kind == "truncated" {
 		// the opener goes away mid-header
@@ -509,7 +528,7 @@ func checkC07d(c c07dCase) (o vstat.Outcome) {
 	if wantDispatch {
 		if !waitFor(5*time.Second, func() bool {
 			_, recs := sink.snapshot()
-			return len(recs) == 1 && (recs[0].read || len(pay) == 0)
+			return len(recs) == 1+len(preWant) && (recs[len(recs)-1].read || len(pay) == 0)
 		}) {
 			dirs, recs := sink.snapshot()
 			o.V = vstat.Viol("valid-stream-not-dispatched", "valid header (pid %d bytes) was not dispatched: lookups=%v records=%d closes=%d", len(pid), dirs, len(recs), ss.CloseCount())
@@ -517,12 +536,17 @@ func checkC07d(c c07dCase) (o vstat.Outcome) {
 		}
 		dirs, recs := sink.snapshot()
 		want := fmt.Sprintf("%s|%s|%s", pid, n.peerID, gen.PeerID(c.Remote))
-		if len(dirs) != 1 || dirs[0] != want {
-			o.V = vstat.Viol("dispatch-wrong-lookup", "handler lookup carried %v, want [%s]", dirs, want)
+		if len(dirs) != 1+len(preWant) || dirs[len(dirs)-1] != want {
+			o.V = vstat.Viol("dispatch-wrong-lookup", "handler lookups carried %v, want %v then [%s]", dirs, preWant, want)
 			return
 		}
-		if !bytes.Equal(recs[0].payload, pay[:min(len(pay), 4096)]) && !(len(pay) == 0 && len(recs[0].payload) == 0) {
-			o.V = vstat.Viol("dispatch-payload", "handler read %d payload bytes, opener wrote %d after the header", len(recs[0].payload), len(pay))
+		last := recs[len(recs)-1]
+		if string(last.dirRemote) != string(gen.PeerID(c.Remote)) || last.msPeer != gen.PeerID(c.Remote) {
+			o.V = vstat.Viol("dispatch-wrong-lookup", "the stream from remote %d was handed to the handler looked up for remote %s", c.Remote, last.dirRemote)
+			return
+		}
+		if !bytes.Equal(last.payload, pay[:min(len(pay), 4096)]) && !(len(pay) == 0 && len(last.payload) == 0) {
+			o.V = vstat.Viol("dispatch-payload", "handler read %d payload bytes, opener wrote %d after the header", len(last.payload), len(pay))
 			return
 		}
 		if len(pay) > 0 && ss.CloseCount() != 0 {
@@ -537,7 +561,7 @@ func checkC07d(c c07dCase) (o vstat.Outcome) {
 	}
 	time.Sleep(settleWindow())
 	dirs, recs := sink.snapshot()
-	if len(dirs) != 0 || len(recs) != 0 {
+	if len(dirs) != len(preWant) || len(recs) != len(preWant) {
 		o.V = vstat.Viol("invalid-header-dispatched", "stream with %s header reached a handler lookup: %v", c.Kind, dirs)
 	}
 	return
